@@ -124,9 +124,11 @@ PROPS = {
     "C18": {
         "units": ["cli_print"],
         "kani": [],
-        "decided": ["Diff::generate: the CLI's edit (range, text) is NodeMatch::make_edit with the rule's Fixer", "apply_rewrite: the written content == old content with exactly the accepted (ordered, disjoint, in-bounds) ranges substituted (unbounded, Verus)"],
-        "not_decided": ["process_diffs_interactive bookkeeping (generic over Printer; closures), files on disk, repeated invocations, injected languages"],
-        "assumptions": ["String::from_utf8 on replacement bytes succeeds (UTF-8 sources and templates)"],
+        "decided": ["Diff::generate: the CLI's edit (range, text) is NodeMatch::make_edit with the rule's Fixer", "apply_rewrite: the written content == old content with exactly the accepted (ordered, disjoint, in-bounds) ranges substituted (unbounded, Verus)",
+                    "process_diffs_interactive: what it hands to apply_rewrite is ordered, disjoint and in bounds (apply_rewrite's precondition is discharged at the call in process_diffs -> rewrite_action); with accept-all (-U) the kept edits are exactly the greedy selection that drops every edit starting before the end of the last kept one; committed_cnt (the 'Applied N changes' number) grows by exactly the number of kept edits",
+                    "rewrite_action: no accepted edit => nothing is written; otherwise the bytes passed to fs::write are apply_rewrite's result"],
+        "not_decided": ["the file system itself, repeated invocations, injected languages, ScanResultInner::into_result ordering (iterator adapters + sort_unstable_by_key)"],
+        "assumptions": ["String::from_utf8 on replacement bytes succeeds (UTF-8 sources and templates)", "the edits of a file lie inside its text (Diff::generate == make_edit, proved in bounds in unit replacer)", "the interactive prompt may answer anything (external)"],
     },
     "C19": {
         "units": [("source", r"get_char_column|position_for_offset"), "traversal"],
